@@ -424,7 +424,7 @@ class Ctx:
                 return
         if key in [v[0] for v in self.violations]:
             return
-        safe = re.sub(r"[^A-Za-z0-9_.-]+", "_", key)[:80]
+        safe = re.sub(r"[^A-Za-z0-9_.-]+", "_", key)[:60] + "-" + hashlib.md5(key.encode()).hexdigest()[:6]
         path = os.path.join(VERIF, "replays", "%s-%s.json" % (self.pid, safe))
         obj = {"property": self.pid, "key": key, "what": what, "seed": self.seed, "tier": self.tier,
                "no_failing_input_found": bool(no_input), "replay": replay}
